@@ -39,7 +39,7 @@ theorem LedgerO.conv {off off' : ValId → Denom → Int} {dels vals} (h : Ledge
   ⟨h.dsorted, h.keyed, h.nonneg, h.vsorted, fun v d => by rw [h.sums v d, e v d]⟩
 
 theorem at_eq_oldShare (dels : List (DelKey × Delegation)) (k : DelKey) (v : ValId) (d : Denom) :
-    AL.at? (shareOf v d) dels k = oldShare dels k v d := rfl
+    AL.at? (shareOf v d) dels k = oldShare dels k v d := by unfold AL.at? oldShare; cases AL.get dels k <;> rfl
 
 /-- writing a delegation record under its own key -/
 theorem LedgerO.setDel {off dels vals} (h : LedgerO off dels vals) (dl : Delegation) (hn : 0 ≤ dl.shares) :
@@ -126,11 +126,12 @@ theorem LedgerO.share_le_total {dels vals} (h : LedgerL dels vals) (k : DelKey) 
             · exact List.mem_cons_of_mem _ (List.mem_cons_of_mem _ e)))
           omega
       rcases List.mem_cons.mp hm with e | e
-      · rw [← e]
-        have : shareOf dl.val dl.denom dl = dl.shares := by unfold shareOf; simp
-        simp only
-        rw [this]; omega
+      · have hp : p.2 = dl := by rw [← e]
+        have : shareOf dl.val dl.denom p.2 = dl.shares := by rw [hp]; unfold shareOf; simp
+        unfold Dec at *
+        omega
       · have := ih (fun y hy => hnn y (List.mem_cons_of_mem _ hy)) e
+        unfold Dec at *
         omega
   exact key dels h.nonneg hm
 
